@@ -322,8 +322,10 @@ def seq_eq(a, b):
 
 def seq_distinct(v):
     i, j = z3.FreshInt('di'), z3.FreshInt('dj')
-    return ForAll([i, j], Implies(And(0 <= i, i < j, j < seq_n(v)),
-                                  Select(seq_arr(v), i) != Select(seq_arr(v), j)))
+    # the explicit instance for the first two positions gives the solver the terms v[0], v[1]
+    return And(ForAll([i, j], Implies(And(0 <= i, i < j, j < seq_n(v)),
+                                      Select(seq_arr(v), i) != Select(seq_arr(v), j))),
+               Implies(seq_n(v) > 1, Select(seq_arr(v), 0) != Select(seq_arr(v), 1)))
 
 
 def seq_sorted_strict(v):
@@ -384,8 +386,12 @@ def card_axioms():
         wit = Function('wit_' + mangle(ty), sort_of(ty), sort_of(et))
         # a non-empty finite set has a member; removing a member decreases the cardinality by one
         out.append(ForAll([A], Implies(f(A) >= 1, Select(A, wit(A))), patterns=[f(A)]))
-        out.append(ForAll([A, x], Implies(Select(A, x), f(A) == 1 + f(Store(A, x, False))),
+        # a set all of whose members equal x, and that contains x, has exactly one element
+        yq = FreshConst(sort_of(et), 'cyq')
+        out.append(ForAll([A, x], Implies(And(Select(A, x), ForAll([yq], Implies(Select(A, yq), yq == x))), f(A) == 1),
                           patterns=[z3.MultiPattern(f(A), Select(A, x))]))
+        # congruence, stated so that the array theory is handed the disequality it needs for extensionality
+        out.append(ForAll([A, B], Implies(f(A) != f(B), A != B), patterns=[z3.MultiPattern(f(A), f(B))]))
         y2 = FreshConst(sort_of(et), 'cy2')
         out.append(ForAll([A, x], Implies(Select(A, x), f(A) >= 1), patterns=[z3.MultiPattern(f(A), Select(A, x))]))
         out.append(ForAll([A, x, y2], Implies(And(f(A) == 1, Select(A, x), Select(A, y2)), x == y2),
